@@ -374,6 +374,7 @@ func runCheck(opt vexec.Options, prop string, seed int64, verif string) int {
 	var totPaths, totDec, totAsserts, totTriv, totSteps int64
 	var solverS float64
 	qSat, qUnsat, qUnk, qErr := 0, 0, 0, 0
+	qKilled := 0
 	boundHits := map[string]int{}
 	unsupported := map[string]int{}
 	witnesses := map[string]int{}
@@ -395,6 +396,7 @@ func runCheck(opt vexec.Options, prop string, seed int64, verif string) int {
 		qSat += r.Solver.Sat
 		qUnsat += r.Solver.Unsat
 		qUnk += r.Solver.Unknown
+		qKilled += r.Solver.Killed
 		qErr += r.Solver.Errors
 		for k, v := range r.Funcs {
 			funcs[k] += v
@@ -651,7 +653,7 @@ func runCheck(opt vexec.Options, prop string, seed int64, verif string) int {
 		"obligations":                   totAsserts + totTriv,
 		"obligations_solver_unsat":      totAsserts,
 		"obligations_folded":            totTriv,
-		"queries":                       map[string]int{"sat": qSat, "unsat": qUnsat, "unknown": qUnk, "error": qErr},
+		"queries":                       map[string]int{"sat": qSat, "unsat": qUnsat, "unknown": qUnk, "error": qErr, "killed_by_watchdog": qKilled},
 		"solver_s":                      solverS,
 		"solver":                        opt.Solver,
 		"bound_hits":                    boundHits,
